@@ -818,6 +818,15 @@ def r04_14(ctx, rep):
            "; ".join(hits[:4]) + " — the stored text differs from the source text for inputs that carry the stripped character inside the delimiters")
 
 
+@SPEC.rule(
+    "R04.15",
+    "every node is attached to the context it was built for: no function of the parser reads a for-loop's variable after that loop has ended (the value the last iteration left behind)",
+)
+def r04_15(ctx, rep):
+    from ._literal import no_stale_loop_variables
+    no_stale_loop_variables(ctx, rep, "R04.15", PARSER, "the parser")
+
+
 # -- seeded variants ---------------------------------------------------------
 from ._mut import delete_stmt_where, replace_in_func  # noqa: E402
 
